@@ -48,10 +48,8 @@ theorem C06_readSig (c : Cfg) (r : Nat) :
 
 /-- **End of input is the empty line.** -/
 theorem C06_eof_empty (c c' : Cfg) (h : c.deliver = some c') (heof : c.A.stdin = []) :
-    newLog c c' = [.read []] ∧ ∀ r, (readSig c r).line = [] := by
-  obtain ⟨r, rs, _, _, _, h4, _⟩ := deliver_step h
-  rw [heof] at h4
-  exact ⟨h4, fun r => by simp [readSig, heof]⟩
+    newLog c c' = [.read []] ∧ ∀ r, (readSig c r).line = [] :=
+  eof_empty h heof
 
 /-- **Hand-off forwards the line unchanged.** The first signal of the hand-off is the successful one: it carries
 `s.line` as it is and is addressed to the requester and handler of the newest request; none of the other signals
@@ -59,11 +57,8 @@ carries a line. (The full statement about the step is `C18_handoff`.) -/
 theorem C06_handoff_forwards (reqs : List Request) (rs : List Nat) (r : Nat) (line : Str) (sid : Nat) :
     (handoffSigs reqs rs r line sid).head? = some (okSig reqs r line sid) ∧
     (okSig reqs r line sid).line = line ∧ (okSig reqs r line sid).ok = true ∧
-    ∀ x ∈ (handoffSigs reqs rs r line sid).tail, x.ok = false ∧ x.line = [] ∧ x.carriesLine = false := by
-  refine ⟨rfl, rfl, rfl, ?_⟩
-  intro x hx
-  have := failSigs_all reqs rs (sid + 1) x hx
-  exact ⟨this.2.2.1, this.2.2.2, by simp [Sig.carriesLine, this.1, this.2.2.1]⟩
+    ∀ x ∈ (handoffSigs reqs rs r line sid).tail, x.ok = false ∧ x.line = [] ∧ x.carriesLine = false :=
+  handoff_forwards reqs rs r line sid
 
 /-- **Handler forwards the line unchanged** to the one-shot callback: for a successful signal addressed to
 handler `n` whose callback is screen `scr`'s, the next instruction is `processInput scr s.line`, and the handler
@@ -72,10 +67,8 @@ theorem C06_handler_forwards (P : Prog) (c : Cfg) (n : Nat) (s : Sig) (rest : Li
     (hc : c.code = .inputReady n s :: rest) (hn : n < c.A.ihs.length) (hs : s.ih = n) (hok : s.ok = true)
     (hcb : (c.A.ihs.getD n default).cb = some scr) :
     ∃ c', step P c = .ok c' ∧ c'.code = .processInput scr s.line :: rest ∧
-      (c'.A.ihs.getD n default).value = some s.line ∧ (c'.A.ihs.getD n default).cb = none := by
-  obtain ⟨c', h1, _, _, _, _, _, _, _, h2, _⟩ := inputReady_result P c n s rest hc hn hs
-  obtain ⟨h3, h4, h5⟩ := h2 hok
-  exact ⟨c', h1, by rw [h5, hcb]; rfl, h3, h4⟩
+      (c'.A.ihs.getD n default).value = some s.line ∧ (c'.A.ihs.getD n default).cb = none :=
+  handler_forwards P c n s rest scr hc hn hs hok hcb
 
 /-- **`process_input` passes the line unchanged** as `key` of the screen's `input` method, together with the
 input arguments currently stored for that screen. -/
@@ -103,20 +96,8 @@ theorem C06_line_intact (P : Prog) (c0 c : Cfg) (h0 : Started c0) (hU : UserHand
     (hr : Reach P c0 c) :
     (∀ s ∈ c.pending, s.carriesLine = true → s.line ∈ readLines c.log) ∧
     (∀ q s, (Tr.enq q s ∈ c.tr ∨ Tr.dropped s ∈ c.tr) → s.carriesLine = true → s.line ∈ readLines c.log) ∧
-    (∀ l ∈ inputLines c.log, l ∈ readLines c.log) := by
-  have h := linesInv_reach h0 hU hF hr
-  refine ⟨?_, ?_, ?_⟩
-  · intro s hs hc
-    obtain ⟨q, hq, hsq⟩ := List.mem_flatMap.mp hs
-    obtain ⟨e, he, rfl⟩ := List.mem_map.mp hsq
-    exact (mem_readLines _ _).mpr (h.qt.1 q hq e he hc)
-  · intro q s hs hc
-    rcases hs with hs | hs
-    · exact (mem_readLines _ _).mpr (h.qt.2 _ hs hc)
-    · exact (mem_readLines _ _).mpr (h.qt.2 _ hs hc)
-  · intro l hl
-    obtain ⟨scr, a, hm⟩ := (mem_inputLines _ _).mp hl
-    exact (mem_readLines _ _).mpr (h.log _ hm)
+    (∀ l ∈ inputLines c.log, l ∈ readLines c.log) :=
+  line_intact h0 hU hF hr
 
 /-! ### 4. at most once -/
 
@@ -165,9 +146,7 @@ theorem C06_screen_request (P : Prog) (c : Cfg) (scr : Nat) (args : Option Nat) 
     Requested c (final (step P c)) (freshIH (.scr scr) (P.spec scr).skipCheck (some scr))
       (promptText P defaultPrompt) ∧
     ∀ j, ((final (step P c)).A.scr j).inputArgs = if scr = j then args else (c.A.scr j).inputArgs :=
-  ⟨by rw [step_getInput2_some P c scr args rest hc hp]
-      exact Requested_congr (requested_of_newIH _ _ _ _ _ _) rfl rfl rfl rfl rfl rfl rfl rfl rfl,
-   getInput2_args P c scr args rest hc hp⟩
+  ⟨screen_request P c scr args rest hc hp, getInput2_args P c scr args rest hc hp⟩
 
 /-- **The arguments are those of the screen's latest request.** The input arguments stored for a screen — the ones
 `process_input` passes to `input` (`C06_processInput`) — change in no transition other than that screen's own
@@ -193,12 +172,8 @@ not even read before line `k` has been handed off to its requester. So two lines
 between the console and the hand-off (no FIFO argument is needed for this part). -/
 theorem C06_one_line_at_a_time (P : Prog) (c0 c : Cfg) (h0 : Started c0) (hU : UserHandlers c0)
     (hF : NoForge P c0) (hr : Reach P c0 c) (hrd : c.A.readers ≠ []) :
-    c.A.readers.length = 1 ∧ irQueued c = 0 ∧ irCode c.code = 0 := by
-  have hi := inputInv_reach h0 hU hF hr
-  have h1 := hi.one_flight
-  have hl : 0 < c.A.readers.length := List.length_pos_iff.mpr hrd
-  unfold inFlight at h1
-  exact ⟨by omega, by omega, by omega⟩
+    c.A.readers.length = 1 ∧ irQueued c = 0 ∧ irCode c.code = 0 :=
+  (reader_busy_of_inv (inputInv_reach h0 hU hF hr) hrd).2.2
 
 /-
   Beyond the hand-off: the `InputReadySignal`s are enqueued at priority 0 into the level their requester
